@@ -393,6 +393,18 @@ func tamperRandom(r *rand.Rand, ver string, evJSON []byte) []byte {
 	var typ string
 	_ = json.Unmarshal(ev["type"], &typ)
 	rehash := false
+	// the name of a key that is stripped on receipt: plain, with one character written as a \uXXXX escape (the same
+	// name) or - not event_id, which is on the keep lists - in other letter case (another name)
+	esc := map[string]bool{}
+	name := func(k string) string {
+		switch x := r.Intn(6); {
+		case x == 0:
+			esc[k] = true
+		case x == 1 && k != "event_id":
+			return otherCase[k]
+		}
+		return k
+	}
 	for n := 1 + r.Intn(3); n > 0; n-- {
 		switch r.Intn(13) {
 		case 0:
@@ -413,13 +425,13 @@ func tamperRandom(r *rand.Rand, ver string, evJSON []byte) []byte {
 		case 2:
 			ev[randKey(r)] = raw(randValue(r, 0))
 		case 3:
-			ev["unsigned"] = raw(map[string]interface{}{"age": r.Intn(1000)})
+			ev[name("unsigned")] = raw(map[string]interface{}{"age": r.Intn(1000)})
 		case 4:
-			ev["age_ts"] = raw(r.Int63n(1 << 40))
+			ev[name("age_ts")] = raw(r.Int63n(1 << 40))
 		case 5:
-			ev["outlier"] = raw(true)
+			ev[name("outlier")] = raw(true)
 		case 6:
-			ev["destinations"] = raw([]string{"evil.example.org"})
+			ev[name("destinations")] = raw([]string{"evil.example.org"})
 		case 7:
 			ev["hashes"] = raw(map[string]string{"sha256": base64.RawStdEncoding.EncodeToString(sha256sum([]byte(randString(r))))})
 		case 8:
@@ -428,7 +440,7 @@ func tamperRandom(r *rand.Rand, ver string, evJSON []byte) []byte {
 			if isFormatV1(ver) {
 				ev["event_id"] = raw("$forged" + fmt.Sprint(r.Intn(3)) + ":" + hs1)
 			} else {
-				ev["event_id"] = raw(idOf("forged", ver))
+				ev[name("event_id")] = raw(idOf("forged", ver))
 			}
 		case 10:
 			ev["depth"] = raw(r.Int63n(50))
@@ -448,6 +460,14 @@ func tamperRandom(r *rand.Rand, ver string, evJSON []byte) []byte {
 			delete(recv, k)
 		}
 		ev["hashes"] = contentHash(recv)
+	}
+	for k := range esc {
+		if _, there := ev[k]; !there {
+			delete(esc, k)
+		}
+	}
+	if len(esc) > 0 {
+		return writeObj(membersOf(ev, esc, false, r.Intn(16)), false)
 	}
 	return marshalRawMap(ev)
 }
